@@ -472,6 +472,16 @@ def slow_sq(x):
     return x * x
 
 
+def poison_linger(x):
+    """dies on input 13 - but its process lingers: a non-daemon thread keeps the interpreter from exiting"""
+    if x == 13:
+        import threading
+        threading.Thread(target=time.sleep, args=(20,)).start()
+        raise ValueError('poison')
+    time.sleep(0.05)
+    return x * x
+
+
 def pid_gone(pid):
     try:
         st = open(f'/proc/{pid}/stat').read().split()[2]
@@ -499,6 +509,8 @@ def real_pools(res, tier, seed):
         ('killed-then-run-restart-run', ['add', 'add', 'kill0', 'run', 'restart', 'run', 'close']),
         ('restart-with-unread-and-dead', ['add', 'add', 'run', 'kill1', 'restart', 'run', 'terminate']),
         ('failed-hook', ['add', 'add_hookfail', 'run', 'exit']),
+        ('died-in-run-but-process-lingers-exit', ['add_linger', 'add', 'run_poison', 'exit']),
+        ('died-in-run-but-process-lingers-exception', ['add_linger', 'run_poison', 'exit_exc']),
     ]
     if tier == 'thorough':
         scenarios += [('many-restarts', ['add', 'add', 'add', 'run', 'restart', 'kill0', 'restart', 'run', 'kill2', 'run', 'exit_exc']),
@@ -522,6 +534,14 @@ def real_pools(res, tier, seed):
                         if st == 'add':
                             w = pool.add_worker(kind, **kw); pids.append(w.pid)
                             w2 = pool.add_worker(WorkerType.THREAD)
+                        elif st == 'add_linger':
+                            w = pool.add_worker(kind, target=poison_linger, **kw); pids.append(w.pid)
+                        elif st == 'run_poison':
+                            try:
+                                pool.run(iter([13, 2, 3]))
+                            except Exception:
+                                pass
+                            time.sleep(0.3)
                         elif st == 'add_stuck':
                             w = pool.add_worker(kind, target=stuck_target, **kw); pids.append(w.pid)
                             stuck = w
